@@ -325,4 +325,16 @@ C09_Monotone == [][\A s \in Dev : \A d \in Dev : ds'[s].ck[d] >= ds[s].ck[d]]_va
 \* C09: every envelope handed out inside the registered window opens at the registered receiver
 C09_Opens == \A s \in Dev : \A d \in Dev : \A k \in ret[d] :
                (regAt[s][d] # -1 /\ regAt[s][d] < k /\ k <= regAt[s][d] + W) => Openable(s, d, k)
+
+\* Link to the abstract model: while nothing was interrupted, every receiving store at rest satisfies the
+\* mechanism invariant of Ratchet.tla (Mech): stored counter = registered counter + window + number of
+\* messages opened, and everything in between is either opened or precomputed.
+OpenedBy(s, d) == {p[2] : p \in {q \in opened[s] : q[1] = d}}
+RefinesMech == (crashes = 0 /\ cur.op = "idle") =>
+  \A s \in Dev : \A d \in Dev \ {s} :
+    IF ds[s].ck[d] = -1 THEN ds[s].pre[d] = {} /\ regAt[s][d] = -1 /\ OpenedBy(s, d) = {}
+    ELSE /\ ds[s].ck[d] = regAt[s][d] + W + Cardinality(OpenedBy(s, d))
+         /\ ((regAt[s][d] + 1)..ds[s].ck[d]) \ OpenedBy(s, d) \subseteq ds[s].pre[d]
+         /\ ds[s].pre[d] \subseteq (regAt[s][d] + 1)..(ds[s].ck[d] + 1)
+         /\ OpenedBy(s, d) \subseteq (regAt[s][d] + 1)..ds[s].ck[d]
 =============================================================================
